@@ -33,11 +33,11 @@ CAP = 300
 def validate_tree(rg, t, name, w, named):
     """cyclic grammars (plain BNF families, keep_all_tokens): is canonical tree t a derivation tree of
     rule `name`?  returns list of leaf tokens or None"""
-    if t is None or t[0] != 'N' or t[1] != name:
+    if t is None or t[0] != 'N':
         return None
     kids = t[2]
     for p in rg.nts[name].prods:
-        if len(p.rhs) != len(kids):
+        if len(p.rhs) != len(kids) or t[1] != (p.alias or rg.nts[name].display):
             continue
         leaves = []
         ok = True
